@@ -41,6 +41,21 @@ namespace
 
     Int as_int(const ValueView &v) { return v.checked_as<Int>(); }
 
+    struct BadOp {};   // malformed operand: both drivers answer "bad-op"
+
+    // times / sizes are naturals, keys / values integers; anything else is a malformed line
+    std::int64_t nat(const std::string &s)
+    {
+        if (s.empty() || s.find_first_not_of("0123456789") != std::string::npos || s.size() > 15) { throw BadOp{}; }
+        return std::stoll(s);
+    }
+    std::int64_t integer(const std::string &s)
+    {
+        const std::string body = (!s.empty() && s[0] == '-') ? s.substr(1) : s;
+        if (body.empty() || body.find_first_not_of("0123456789") != std::string::npos || body.size() > 15) { throw BadOp{}; }
+        return std::stoll(s);
+    }
+
     std::string join(std::vector<std::string> items, bool sort = true)
     {
         if (sort)
@@ -241,15 +256,17 @@ int main()
             else if (op == "tsd" && w.size() == 1) { output = std::make_unique<TSOutput>(*tsd_int); kind = Kind::TSD; std::cout << "ok\n"; }
             else if (op == "tsw" && w.size() == 3)
             {
-                const auto *meta = registry.tsw(int_meta, static_cast<std::size_t>(to_i(w[1])), static_cast<std::size_t>(to_i(w[2])));
+                const auto period = nat(w[1]), min_period = nat(w[2]);
+                if (period == 0) { throw BadOp{}; }
+                const auto *meta = registry.tsw(int_meta, static_cast<std::size_t>(period), static_cast<std::size_t>(min_period));
                 output = std::make_unique<TSOutput>(*meta);
                 kind   = Kind::TSW;
                 std::cout << "ok\n";
             }
             else if ((op == "add" || op == "rem") && need(Kind::TSS, 2))
             {
-                const auto t    = dt(to_i(w[1]));
-                Value      key{Int{to_i(w[2])}};
+                const auto t    = dt(nat(w[1]));
+                Value      key{Int{integer(w[2])}};
                 auto       view = output->view(t);
                 auto       set  = view.as_set();
                 auto       mutation = set.begin_mutation(t);
@@ -258,7 +275,7 @@ int main()
             }
             else if ((op == "clear" || op == "touch") && need(Kind::TSS, 1))
             {
-                const auto t    = dt(to_i(w[1]));
+                const auto t    = dt(nat(w[1]));
                 auto       view = output->view(t);
                 auto       set  = view.as_set();
                 auto       mutation = set.begin_mutation(t);
@@ -267,7 +284,7 @@ int main()
             }
             else if ((op == "clear" || op == "touch") && need(Kind::TSD, 1))
             {
-                const auto t    = dt(to_i(w[1]));
+                const auto t    = dt(nat(w[1]));
                 auto       view = output->view(t);
                 auto       dict = view.as_dict();
                 auto       mutation = dict.begin_mutation(t);
@@ -276,9 +293,9 @@ int main()
             }
             else if (op == "set" && need(Kind::TSD, 3))
             {
-                const auto t = dt(to_i(w[1]));
-                Value      key{Int{to_i(w[2])}};
-                Value      value{Int{to_i(w[3])}};
+                const auto t = dt(nat(w[1]));
+                Value      key{Int{integer(w[2])}};
+                Value      value{Int{integer(w[3])}};
                 auto       view = output->view(t);
                 auto       dict = view.as_dict();
                 auto       mutation = dict.begin_mutation(t);
@@ -287,8 +304,8 @@ int main()
             }
             else if (op == "at" && need(Kind::TSD, 2))
             {
-                const auto t = dt(to_i(w[1]));
-                Value      key{Int{to_i(w[2])}};
+                const auto t = dt(nat(w[1]));
+                Value      key{Int{integer(w[2])}};
                 auto       view = output->view(t);
                 auto       dict = view.as_dict();
                 auto       mutation = dict.begin_mutation(t);
@@ -297,8 +314,8 @@ int main()
             }
             else if (op == "erase" && need(Kind::TSD, 2))
             {
-                const auto t = dt(to_i(w[1]));
-                Value      key{Int{to_i(w[2])}};
+                const auto t = dt(nat(w[1]));
+                Value      key{Int{integer(w[2])}};
                 auto       view = output->view(t);
                 auto       dict = view.as_dict();
                 auto       mutation = dict.begin_mutation(t);
@@ -306,8 +323,8 @@ int main()
             }
             else if (op == "push" && need(Kind::TSW, 2))
             {
-                const auto t = dt(to_i(w[1]));
-                Value      value{Int{to_i(w[2])}};
+                const auto t = dt(nat(w[1]));
+                Value      value{Int{integer(w[2])}};
                 auto       view   = output->view(t);
                 auto       window = view.as_window();
                 auto       mutation = window.begin_mutation(t);
@@ -316,7 +333,7 @@ int main()
             }
             else if (op == "wclear" && need(Kind::TSW, 1))
             {
-                const auto t = dt(to_i(w[1]));
+                const auto t = dt(nat(w[1]));
                 auto       view   = output->view(t);
                 auto       window = view.as_window();
                 auto       mutation = window.begin_mutation(t);
@@ -325,8 +342,8 @@ int main()
             }
             else if (op == "wclearpush" && need(Kind::TSW, 2))
             {
-                const auto t = dt(to_i(w[1]));
-                Value      value{Int{to_i(w[2])}};
+                const auto t = dt(nat(w[1]));
+                Value      value{Int{integer(w[2])}};
                 auto       view   = output->view(t);
                 auto       window = view.as_window();
                 auto       mutation = window.begin_mutation(t);
@@ -336,13 +353,14 @@ int main()
             }
             else if (op == "dump" && w.size() == 2 && output != nullptr)
             {
-                const auto t = dt(to_i(w[1]));
+                const auto t = dt(nat(w[1]));
                 std::cout << (kind == Kind::TSS ? dump_tss(*output, t) : kind == Kind::TSD ? dump_tsd(*output, t) : dump_tsw(*output, t))
                           << "\n";
             }
             else if (op == "slots" && w.size() == 1 && output != nullptr) { std::cout << dump_slots(*output, kind) << "\n"; }
             else { std::cout << "bad-op\n"; }
         }
+        catch (const BadOp &) { std::cout << "bad-op\n"; }
         catch (const std::invalid_argument &) { std::cout << "err:invalid-arg\n"; }
         catch (const std::out_of_range &) { std::cout << "err:range\n"; }
         catch (const std::length_error &) { std::cout << "err:range\n"; }
